@@ -10,8 +10,10 @@
      - C17_index_fixpoint_partial / C17_masked_index_refuted: the same for index columns EXCEPT masked dtypes,
        which _pre_allocate turns into int64 (open finding).
      - C17_null_evidence: a plain numpy int/bool prediction that was not taken on trust from the pandas metadata
-       means every non-empty row group has statistics with null_count 0 or absent at the field's position;
-       C17_no_null_in_plain_dtype: with exact, always-written null counts (C04) no NULL cell exists.
+       means every non-empty row group has statistics with null_count = 0 at the field's position (repaired tree;
+       the pinned tree also accepted an ABSENT null_count: C17_absent_null_count_refuted, and trusted the codes' dtype
+       of a categorical metadata entry: C17_categorical_md_refuted);
+       C17_no_null_in_plain_dtype: with exact null counts (C04) no NULL cell exists.
      - C17_counts: count() = number of rows of the concatenated row groups, for every list of row groups.
      - C17_categories / C17_categories_refused: which fields a `categories` request turns into 'category'.
      - C17_written_dtype_roundtrip / C17_decode_consistent (finite, by computation on the tables).
@@ -48,26 +50,44 @@ Theorem C17_int96_tz_refuted :
 Proof. exact int96_tz_old_refuted. Qed.
 Print Assumptions C17_int96_tz_refuted.
 
-Theorem C17_null_evidence : forall i96 has_md pn se md i rgs d,
+Theorem C17_null_evidence : forall R has_md pn se md i rgs d,
   (se_type se < 8)%N ->
-  base_dtype_gen i96 pinned has_md pn se md i rgs = ROk d ->
-  np_int_or_bool d = true -> has_md && md_claims_int_or_bool md = false ->
-  Forall (no_evidence_rg i) rgs.
+  base_dtype_gen R pinned has_md pn se md i rgs = ROk d ->
+  np_int_or_bool d = true -> has_md && md_claims_gen (r_cat_md R) md = false ->
+  Forall (no_evidence_rg (r_absent_counts R) i) rgs.
 Proof. exact null_evidence_sound. Qed.
 Print Assumptions C17_null_evidence.
 
-Theorem C17_null_evidence_iff : forall i rgs,
-  null_evidence i rgs = Some false <-> Forall (no_evidence_rg i) rgs.
+Theorem C17_null_evidence_iff : forall absent i rgs,
+  null_evidence_gen absent i rgs = Some false <-> Forall (no_evidence_rg absent i) rgs.
 Proof. exact null_evidence_false. Qed.
 Print Assumptions C17_null_evidence_iff.
 
 Theorem C17_no_null_in_plain_dtype : forall i rgs (actual : list N),
-  Forall (no_evidence_rg i) rgs ->
+  Forall (no_evidence_rg true i) rgs ->
   Forall2 (fun rg a => (rg_rows rg = 0%N -> a = 0%N) /\
-                       forall nc, nth_error (rg_chunks rg) i = Some (Some nc) -> nc = Some a) rgs actual ->
+                       forall n, nth_error (rg_chunks rg) i = Some (Some (Some n)) -> n = a) rgs actual ->
   Forall (fun a => a = 0%N) actual.
 Proof. exact no_null_reaches_plain_dtype. Qed.
 Print Assumptions C17_no_null_in_plain_dtype.
+
+(* the pinned tree (`if st.null_count:`) took statistics without a null_count for "no nulls" *)
+Theorem C17_absent_null_count_refuted :
+  exists se rgs rg,
+    base_dtype_gen pinned_rules pinned false true se None 0 rgs = ROk (DInt true 64) /\
+    In rg rgs /\ rg_rows rg <> 0%N /\ nth_error (rg_chunks rg) 0 = Some (Some None) /\
+    base_dtype_gen repaired pinned false true se None 0 rgs = ROk (DNInt true 64).
+Proof. exact absent_null_count_old_refuted. Qed.
+Print Assumptions C17_absent_null_count_refuted.
+
+(* the pinned tree trusted the numpy_type of a CATEGORICAL metadata entry (the dtype of the codes) *)
+Theorem C17_categorical_md_refuted :
+  exists se md rgs,
+    base_dtype_gen pinned_rules pinned true true se (Some md) 0 rgs = ROk (DInt true 64) /\
+    null_evidence_gen false 0 rgs = Some true /\
+    base_dtype_gen repaired pinned true true se (Some md) 0 rgs = ROk (DNInt true 64).
+Proof. exact categorical_md_old_refuted. Qed.
+Print Assumptions C17_categorical_md_refuted.
 
 Theorem C17_counts : forall (A : Type) (rgs : list rgroup) (frames : list (list A)),
   Forall2 (fun rg f => rg_rows rg = N.of_nat (List.length f)) rgs frames ->
@@ -107,7 +127,8 @@ Example C17_nonvacuous :
   let rgs := [mk_rg 5 [Some (Some 0); None]; mk_rg 0 [None; None]; mk_rg 7 [Some (Some 3); Some (Some 0)]]%N in
   predict pinned false true i64 None 0 rgs false = ROk (DNInt true 64)
   /\ predict pinned false false i64 None 0 rgs false = ROk (DFloat 64)
-  /\ predict pinned false true i64 None 0 [mk_rg 5 [Some (Some 0)]; mk_rg 7 [Some None]]%N false = ROk (DInt true 64)
+  /\ predict pinned false true i64 None 0 [mk_rg 5 [Some (Some 0)]; mk_rg 0 [None]; mk_rg 7 [Some (Some 0)]]%N false = ROk (DInt true 64)
+  /\ predict pinned false true i64 None 0 [mk_rg 5 [Some (Some 0)]; mk_rg 7 [Some None]]%N false = ROk (DNInt true 64)
   /\ predict pinned false true i64 None 1 rgs false = ROk (DNInt true 64)
   /\ predict pinned false true i64 None 2 rgs false = RErr
   /\ predict pinned true true (mk_se 1 (Some 13) None 0 false) (Some (mk_md (b_ "UInt32") (b_ "UInt32") false)) 0 [] false
